@@ -152,6 +152,7 @@ type dkgInst struct {
 	gw         *dnet.PrivateGateway
 	conn       *grpc.ClientConn
 	wedged     bool
+	nops       int
 	seq        uint32
 	lastSigned *pdkg.DKGPacket
 }
@@ -696,10 +697,17 @@ func (in *dkgInst) callStatus(layer string, r *pdkg.DKGStatusRequest) (string, s
 }
 
 // probes: is the lock free, and do a status request, a gossip packet and a broadcast (all for benign inputs) still get their usual answer
-func (in *dkgInst) probes(layer string) string {
+// c14ProbeEvery: the request probes (each costs a few store reads) run after every op whose outcome is not a plain
+// error and after every c14ProbeEvery-th op; the lock probe runs after every op. The Lean driver applies the same rule.
+const c14ProbeEvery = 4
+
+func (in *dkgInst) probes(layer string, full bool) string {
 	lock := "free"
 	if !in.M.VerifLockFree() {
 		lock = "held"
+	}
+	if !full && lock == "free" {
+		return "lock=free st=- pk=- bc=-"
 	}
 	save := c14Watchdog
 	c14Watchdog = c14ProbeWatchdog
@@ -786,7 +794,8 @@ func dispatchEngine(args []string, in *bufio.Scanner, out *bufio.Writer) {
 					c14Confirm = time.Second
 					defer func() { c14Confirm = saved }()
 				}
-				pr := inst.probes(f[1])
+				inst.nops++
+				pr := inst.probes(f[1], o != "err" || inst.nops%c14ProbeEvery == 0)
 				if o == "hang" || strings.Contains(pr, "hang") || strings.Contains(pr, "held") {
 					inst.wedged = true
 				}
